@@ -206,7 +206,9 @@ func c20Fds() (map[string]int, int) {
 	}
 	for _, e := range ents {
 		t, err := os.Readlink("/proc/self/fd/" + e.Name())
-		if err != nil || !strings.HasPrefix(t, "/") || strings.HasPrefix(t, "/proc/") {
+		// /proc and /sys pseudo-files are opened transiently by the Go runtime and libc on other threads
+		// (e.g. /sys/devices/system/cpu/online), never by the library
+		if err != nil || !strings.HasPrefix(t, "/") || strings.HasPrefix(t, "/proc/") || strings.HasPrefix(t, "/sys/") {
 			continue
 		}
 		out[t]++
